@@ -246,6 +246,6 @@ def run(prog: Program, rep: Report, tier: str = "quick") -> None:
     game.add_instances(rep, game.cap_job, [(i, tier, "R6.6") for i in range(n)], "R6.6", 5 * n)
     game.add_instances(rep, c01.closed_form_job, [(i, tier, "R6.7") for i in range(n)], "R6.7", 28 * n, counterpart_only=True)
     rep.arbitrate({"R6.5"}, "R6.6", "with limit_sigma every player's final sigma is at most its own prior")
-    rep.arbitrate({"R6.1", "R6.2", "R6.3", "R6.4"}, "R6.7", "the stored sigma is sqrt(sigma^2 + tau^2) x sqrt(max(1 - share x delta, kappa)) of the closed form")
+    rep.arbitrate({"R6.1", "R6.2", "R6.3", "R6.4"}, "R6.7", "the stored sigma is sqrt(sigma^2 + tau^2) x sqrt(max(1 - share x delta, kappa)) of the closed form", lenient={"R6.3", "R6.4"})
     rep.supersede({"R6.5"}, "R6.6", "with limit_sigma every player's final sigma is at most its own prior")
     rep.supersede({"R6.1", "R6.2", "R6.3", "R6.4"}, "R6.7", "the stored sigma is the closed form's")
